@@ -221,6 +221,45 @@ PROPS.update({
 })
 
 
+LOUV_RULE = ('random graphs of all 8 kinds with 2..size nodes and at least one edge (positive integer weights or unweighted, parallel '
+             'edges, self-loops, several components) and - profile "ties" - paths, cycles and circulant graphs whose candidate communities '
+             'tie exactly; resolutions 1/2..2, seeds 0..999; every call runs under a watchdog (8 s); non-trivial = more than one node '
+             'ends up in one community')
+
+PROPS.update({
+    'C12': dict(
+        gens=[('mod', 'small', 3000, 50000, 7)],
+        spec_fields=[r'isp', r'mod:q'], model_fields=[r'build', r'isp', r'mod:q'], impl_checks=[('defaultres', '1')],
+        nontrivial=lambda req, I: I.get('isp') == '1' and I.get('mod:q') not in ('nan', None),
+        hist=lambda req, I: graph_hist(req, I) + ['isp.' + I.get('isp', '?'), 'mod.' + ('E6' if I.get('mod:q') == 'E6' else 'value')],
+        rule='random graphs of all 8 kinds (1..7 nodes, parallel edges, self-loops), 1-4 communities from a random assignment, 40% perturbed '
+             'into non-partitions (overlap, omission, overlap+omission cancelling in the count, foreign node, foreign node replacing a real '
+             'one, empty sets), resolutions 1/4..2; non-trivial = a true partition with a defined modularity',
+        assumptions=COMMON_ASSUME,
+    ),
+    'C13': dict(
+        gens=[('louv', 'random', 1500, 25000, 9), ('louv', 'ties', 500, 8000, 10)],
+        spec_fields=[r'ok\.levels', r'ok\.nested', r'ok\.monotone', r'ok\.last'], model_fields=[r'build'],
+        nontrivial=lambda req, I: ',' in I.get('parts', ''),
+        hist=lambda req, I: graph_hist(req, I) + ['levels.%d' % len(I.get('parts', '').split())],
+        rule=LOUV_RULE, assumptions=COMMON_ASSUME[:2] + [
+            'modularity of the returned levels is recomputed exactly (rationals) on the input graph by the Lean specification; '
+            'a decrease of more than 1e-9 is a violation (f64 rounding inside Louvain is not modelled)',
+            'termination is observed through a watchdog: 8 s per call'],
+    ),
+    'C17': dict(
+        gens=[('louv', 'ties', 1200, 20000, 12), ('louv', 'random', 600, 10000, 9)],
+        spec_fields=[], model_fields=[r'build'], impl_checks=[('same', '1')],
+        extra_checks=['fresh_process_identical'],
+        nontrivial=lambda req, I: ',' in I.get('parts', ''),
+        hist=lambda req, I: graph_hist(req, I) + ['levels.%d' % len(I.get('parts', '').split())],
+        rule=LOUV_RULE + '; each case is run twice in one process, in rayon pools of 1 and 4 threads, and again in a second process',
+        assumptions=COMMON_ASSUME[:2] + ['the std hasher (RandomState) is library code: its per-instance keying is exercised by repeated calls '
+                                         'and fresh processes, not modelled'],
+    ),
+})
+
+
 def run_translator(ctx, name):
     import extract
     return extract.run(ctx, name)
